@@ -22,14 +22,14 @@ theorem splitOn_joinWith {c : Nat} {xs : List Str} (hne : xs ≠ []) (hx : ∀ x
 
 theorem kvStr_ne_nil (kv : Str × Str) : kvStr kv ≠ [] := by simp [kvStr]
 
-theorem comma_notMem_kvStr {kv : Str × Str} (h1 : clean kv.1 = true) (h2 : cleanV kv.2 = true) :
+theorem comma_notMem_kvStr {kv : Str × Str} (h1 : clean kv.1 = true) (h2 : cleanVal kv.2 = true) :
     cComma ∉ kvStr kv := by
   intro m
   simp only [kvStr, List.mem_append, List.mem_cons] at m
   rcases m with m | m | m
   · exact clean_comma h1 m
   · cases m
-  · exact cleanV_comma h2 m
+  · exact cleanVal_comma h2 m
 
 theorem kvStr_inj {a b : Str × Str} (ha : clean a.1 = true) (hb : clean b.1 = true)
     (h : kvStr a = kvStr b) : a = b := by
@@ -50,7 +50,7 @@ theorem map_kvStr_inj {k1 k2 : Labels} (h1 : ∀ kv ∈ k1, clean kv.1 = true) (
       rw [kvStr_inj (h1 a (by simp)) (h2 b (by simp)) h.1,
         ih (fun kv m => h1 kv (by simp [m])) (fun kv m => h2 kv (by simp [m])) h.2]
 
-def CleanKey (k : Labels) : Prop := ∀ kv ∈ k, clean kv.1 = true ∧ cleanV kv.2 = true
+def CleanKey (k : Labels) : Prop := ∀ kv ∈ k, clean kv.1 = true ∧ cleanVal kv.2 = true
 
 theorem render_inj {w : Bool} {name : Str} {k1 k2 : Labels} (h1 : CleanKey k1) (h2 : CleanKey k2)
     (h : render w name k1 = render w name k2) : k1 = k2 := by
